@@ -76,7 +76,10 @@ func parseStacks(s string) []gor {
 	return out
 }
 
-func (g gor) ofKapacitor() bool { return strings.HasPrefix(g.Creator, kapPath) }
+// The in-process UDF agent (package udf/agent) stands for the external UDF process: not the daemon's.
+func (g gor) ofKapacitor() bool {
+	return strings.HasPrefix(g.Creator, kapPath) && !strings.HasPrefix(g.Creator, kapPath+"/udf/agent.")
+}
 
 // Sig is the innermost frame inside the module under test, without the module
 // path ("edge.(*multiConsumer).readEdge"): a stable name for "which goroutine".
